@@ -182,7 +182,8 @@ theorem C14_never_undercounts (h : Nat) :
               by_cases hh : h' = h
               · subst hh
                 have hnot : t.dk.contains h' = false := by
-                  simp only [TinyLFU.addLegal, Bool.not_true, Bool.or_false, Bool.not_eq_true'] at hlegal
+                  simp only [TinyLFU.addLegal, Bool.not_true, Bool.or_false, Bool.or_true, Bool.and_true,
+                    Bool.not_eq_true'] at hlegal
                   simpa using hlegal
                 have hnew : (h' :: t.dk).contains h' = true := by simp
                 rw [hnot] at hpot
@@ -267,6 +268,41 @@ theorem C14_ageing (t t' : TinyLFU) (h : Nat) (added : Bool) (hi : t.incrementFo
         simp only [hge, if_true, Option.some.injEq] at hi
         subst hi
         exact ⟨rfl, rfl, fc', rfl, rfl⟩
+
+/-- **Ageing clears the first-access filter.**  In the state right after ageing the filter holds nothing, so every
+    answer it may legally give is "absent": no key carries the `+1` of the filter any more (its estimate is the bare
+    sketch estimate, which was just halved), and the next recorded access of ANY key is taken by the filter as a first
+    access instead of being counted.  (The legality predicates are what the correspondence check enforces on the
+    doorkeeper answers tapped from the real Bloom filter: a filter that is not cleared on ageing gives an answer this
+    theorem excludes, and the driver rejects it.) -/
+theorem C14_ageing_clears_filter (t t' : TinyLFU) (h : Nat) (added : Bool) (hi : t.incrementFor h added = some t')
+    (hge : t.incs + 1 ≥ t.resetAt) :
+    t'.dk = [] ∧ (∀ h' b, t'.hasLegal h' b = true → b = false) ∧ (∀ h' a, t'.addLegal h' a = true → a = true) ∧
+    (∀ h' b, t'.hasLegal h' b = true → t'.estimate h' b = t'.fc.estimate h') := by
+  have hdk : t'.dk = [] := ((C14_ageing t t' h added hi).2 hge).2.1
+  have hhas : ∀ h' b, t'.hasLegal h' b = true → b = false := by
+    intro h' b hl
+    unfold TinyLFU.hasLegal at hl
+    rw [hdk] at hl
+    cases b <;> simp_all
+  refine ⟨hdk, hhas, ?_, ?_⟩
+  · intro h' a hl
+    unfold TinyLFU.addLegal at hl
+    rw [hdk] at hl
+    cases a <;> simp_all
+  · intro h' b hl
+    have hb := hhas h' b hl
+    subst hb
+    unfold TinyLFU.estimate
+    cases t'.fc.estimate h' <;> simp
+
+/-- the premises are met: two counters, ageing at the second recorded access; the key seen once before ageing has
+    estimate 1 before and 0 after, and a doorkeeper that still answered "present" would be rejected -/
+example :
+    ((TinyLFU.new 2 [1, 2, 3, 4]).incrementFor 7 true).bind (fun t1 => (t1.incrementFor 9 true).map (fun t2 =>
+      [t1.hasLegal 7 true, t1.estimate 7 true == some 1, decide (t1.incs + 1 ≥ t1.resetAt),
+       t2.hasLegal 7 true, t2.hasLegal 7 false, t2.estimate 7 false == some 0, t2.addLegal 7 false, t2.addLegal 7 true]))
+    = some [true, true, true, false, true, true, false, true] := by decide
 
 /-- what "halved" means for every counter of every row -/
 theorem C14_reset_halves (fc : FreqCounter) (seed : Nat) (row : Row) (hmem : (seed, row) ∈ fc.rows) (p : Nat) :
